@@ -231,3 +231,89 @@ def gen_reactions(rng, n_events, density=0.3, **kw):
         if rng.random() < density:
             rx[i] = [gen_act(rng, **kw) for _ in range(rng.choice([1, 1, 2]))]
     return rx
+
+
+# ---------------------------------------------------------------------------------------------
+# whole histories: environment steps with time, faults, reactions (C07, C09, C13, C14, C15)
+
+def handshake_variant(rng, sc, p_good=0.8):
+    r = rng.random()
+    if r < p_good:
+        return sc.good_reply(rng.choice([b'', b'', b'Sec-WebSocket-Protocol: chat\r\n'])), 'good'
+    if r < p_good + 0.07:
+        return b'HTTP/1.1 403 Forbidden\r\nServer: x\r\n\r\n', 'reject'
+    if r < p_good + 0.12:
+        return b'HTTP/1.1 101 Switching Protocols\r\nUpgrade: websocket\r\nSec-WebSocket-Accept: AAAA\r\n\r\n', 'reject'
+    if r < p_good + 0.16:
+        return b'garbage without terminator ' * 3, 'garbage'
+    return b'X' * 16400, 'oversize'
+
+
+def gen_history(rng, n_steps=8, timers=False, faults=True, p_good=0.85, reactions=True, closes=True):
+    """a Scenario with a mixed environment script; always ends with a transport-ending step"""
+    poll = rng.choice([1, 2, 5]) if timers else 5
+    sc = Scenario([], poll=poll,
+                  prate=(rng.choice([0, 2, 3, 7, 30]) if timers else 0),
+                  ptimeout=(rng.choice([0, 0, 3, 6, 10]) if timers else 0),
+                  ctimeout=(rng.choice([0, 2, 5, 30]) if timers else 30),
+                  autopong=rng.random() < 0.85)
+    hs, kind = handshake_variant(rng, sc, p_good)
+    pieces = [hs]
+    for _ in range(n_steps):
+        r = rng.random()
+        if r < 0.55:
+            pieces.append(b''.join(serialise_item(rng, gen_item(rng))))
+        elif r < 0.65:
+            pieces.append(b''.join(serialise_item(rng, gen_close(rng))))
+        elif r < 0.72:
+            cls = rng.choice(VIOLATIONS)
+            if applicable(cls, False, False):
+                pieces.append(gen_violation(rng, cls, False))
+        elif r < 0.8:
+            pieces.append(server_frame(rng.choice([1, 2]), b'part', fin=0))
+        else:
+            pieces.append(None)       # silence
+    env = []
+    buf = b''
+    for pc in pieces:
+        if pc is None:
+            if buf:
+                env += _as_reads(rng, buf, timers, poll)
+                buf = b''
+            env.append(('wait', poll, None))
+            continue
+        buf += pc
+        if rng.random() < 0.5:
+            env += _as_reads(rng, buf, timers, poll)
+            buf = b''
+    if buf:
+        env += _as_reads(rng, buf, timers, poll)
+    end = rng.random()
+    if not faults or end < 0.6:
+        env.append(('wait', rng.choice([0, 1, poll]) if timers else 1, ('eof',)))
+    elif end < 0.8:
+        env.append(('wait', 0, ('sockerr',)))
+    elif end < 0.9:
+        env.append(('wait', 0, ('othererr',)))
+    else:
+        env.append(('selerr',))
+    sc.env = env
+    if faults and rng.random() < 0.3:
+        sc.wfail = set(rng.sample(range(0, 6), rng.choice([1, 1, 2])))
+    if faults and rng.random() < 0.05:
+        sc.conn = rng.choice(['sockfail', 'otherfail'])
+    if reactions:
+        sc.reactions = gen_reactions(rng, 14, density=rng.choice([0.0, 0.15, 0.4]), allow_close=closes)
+    return sc
+
+
+def _as_reads(rng, data, timers, poll):
+    chunks = cut(data, random_cuts(rng, len(data), rng.choice([0, 0, 1, 3])))
+    out = []
+    for c in chunks:
+        while len(c) > 65536:
+            out.append(('wait', 0, ('data', c[:65536])))
+            c = c[65536:]
+        dt = rng.choice([0, 0, 1, poll]) if timers else 0
+        out.append(('wait', dt, ('data', c)))
+    return out
